@@ -328,7 +328,7 @@ static int shape_main(int argc, char** argv) {
     }
   };
   limit_memory(6ULL << 30);
-  pool().run(NG + NS, ARGS.jobs, fn, cf, ARGS, atoi(ARGS.opt("--step-timeout", "20").c_str()));
+  pool().run(NG + NS, ARGS.jobs, fn, cf, ARGS, atoi(ARGS.opt("--step-timeout", "8").c_str()));
   bool complete = counter(CNT_SKIPPED) == 0 && counter(CNT_REFCRASH) == 0;
   std::vector<std::string> samples;
   for (size_t i = 0; i < REPS.size(); i += std::max<size_t>(1, REPS.size() / 3)) samples.push_back(hist_json(REPS[i]));
